@@ -5,7 +5,7 @@
    admissibility guard), tied by an exhaustive correspondence over the 16 presence patterns. *)
 From Coq Require Import Reals Lra List Bool Arith ZArith String.
 From PP Require Import Kern.RBool Gen.KThermNp Gen.KThermNb Gen.KThermExpr Gen.KHooksHeat C10.Spec C10.Proofs
-                       C11.Model C11.Proofs.
+                       C11.Model C11.Proofs C11.Closure.
 Import ListNotations.
 Open Scope R_scope.
 
@@ -111,10 +111,11 @@ Theorem reported_quantities : forall Q tout tin m (cp : R -> R),
 Proof. exact reported_quantities_lemma. Qed.
 Print Assumptions reported_quantities.
 
-(* consumer results are written on the rows that were calculated, pump results on all rows (generated table) *)
+(* consumer and circulation-pump results (qext_w, deltat_k) are written on the rows that were calculated
+   (generated table; elements that were not calculated keep the NaN the result table is initialised with) *)
 Theorem reported_rows :
   res_rows_written = [("hc_res", "qext_w", "active_hydraulics"); ("hc_res", "deltat_k", "active_hydraulics");
-                      ("cp_res", "deltat_k", "all"); ("cp_res", "qext_w", "all")]%string.
+                      ("cp_res", "deltat_k", "active_hydraulics"); ("cp_res", "qext_w", "active_hydraulics")]%string.
 Proof. reflexivity. Qed.
 Print Assumptions reported_rows.
 
@@ -130,6 +131,50 @@ Theorem loop_energy_closure_constant_cp : forall c m l Tflow Treturn,
   duties (fun _ => c) m l = cp_res_res_qext_w m Tflow (fun _ => c) Treturn.
 Proof. exact loop_energy_closure_const_cp. Qed.
 Print Assumptions loop_energy_closure_constant_cp.
+
+(* ---- 5b. loop closure for branched loops (any graph): mass balance and mean-c_p mixing at every node *)
+Theorem branched_loop_energy_closure : forall cp T n (bs : list lbranch),
+  (forall b, In b bs -> (l_from b < n)%nat /\ (l_to b < n)%nat) ->
+  (forall i, (i < n)%nat -> into i l_m bs = outof i l_m bs) ->
+  (forall i, (i < n)%nat -> into i (mixterm cp T) bs = 0) ->
+  sumb (nonpump (duty cp T)) bs =
+  sumb (onpump (pump_q cp T)) bs + sumb (nonpump (Dbranch cp T)) bs + sumb (Dnode cp T) bs.
+Proof. exact branched_loop_closure. Qed.
+Print Assumptions branched_loop_energy_closure.
+
+(* the pump term is the generated circulation-pump result formula; the terms written out *)
+Theorem closure_terms : forall cp T b,
+  pump_q cp T b = cp_res_res_qext_w (l_m b) (l_tout b) cp (T (l_from b)) /\
+  duty cp T b = l_m b * ((cp (T (l_from b)) + cp (l_tout b)) / 2) * (T (l_from b) - l_tout b) /\
+  mixterm cp T b = l_m b * ((cp (l_tout b) + cp (T (l_to b))) / 2) * (l_tout b - T (l_to b)) /\
+  Dbranch cp T b = - (1 / 2) * l_m b * (cp (T (l_from b)) - cp (l_tout b)) * (T (l_from b) + l_tout b) /\
+  Dnode cp T b = - (1 / 2) * l_m b * (cp (l_tout b) - cp (T (l_to b))) * (l_tout b + T (l_to b)).
+Proof. intros. unfold pump_q, cp_res_res_qext_w, duty, mixterm, Dbranch, Dnode, cbar. cbv zeta. repeat split; ring. Qed.
+Print Assumptions closure_terms.
+
+Theorem branched_loop_energy_closure_constant_cp : forall c T n (bs : list lbranch),
+  (forall b, In b bs -> (l_from b < n)%nat /\ (l_to b < n)%nat) ->
+  (forall i, (i < n)%nat -> into i l_m bs = outof i l_m bs) ->
+  (forall i, (i < n)%nat -> into i (mixterm (fun _ => c) T) bs = 0) ->
+  sumb (nonpump (duty (fun _ => c) T)) bs = sumb (onpump (pump_q (fun _ => c) T)) bs.
+Proof.
+  intros c T n bs H1 H2 H3. rewrite (branched_loop_closure (fun _ => c) T n bs H1 H2 H3).
+  destruct (const_cp_no_discretisation c T bs) as [-> ->]. ring.
+Qed.
+Print Assumptions branched_loop_energy_closure_constant_cp.
+
+Example branched_loop_hypotheses_satisfiable :
+  let T := fun i : nat => match i with O => 350 | 1%nat => 340 | _ => 330 end in
+  let bs := [mkLB 0 1 2 340 false; mkLB 0 1 1 340 false; mkLB 1 0 3 350 true] in
+  (forall b, In b bs -> (l_from b < 2)%nat /\ (l_to b < 2)%nat) /\
+  (forall i, (i < 2)%nat -> into i l_m bs = outof i l_m bs) /\
+  (forall i, (i < 2)%nat -> into i (mixterm (fun _ => 4000) T) bs = 0).
+Proof.
+  simpl. split; [|split].
+  - intros b [<-|[<-|[<-|[]]]]; simpl; split; auto.
+  - intros i Hi. destruct i as [|[|i]]; unfold into, outof; simpl; lra.
+  - intros i Hi. destruct i as [|[|i]]; unfold into, mixterm, cbar; simpl; lra.
+Qed.
 
 (* ---- non-vacuity *)
 Example loop_example :
